@@ -100,8 +100,14 @@ class World:
         if not hasattr(_u, "write_tty"):
             raise MachineryError("seam term_image.widget._urwid.write_tty is missing")
         _u.write_tty = lambda data: self.buf.write(data.decode())
-        # user-defined subclasses of the widget class (the allocator is shared by all of them)
+        # user-defined subclasses of the widget class (the allocator is shared by all of them);
+        # every history starts like a fresh process: nothing an earlier history may have left on
+        # the subclasses shadows the allocator fields of UrwidImage
         self.classes = _widget_classes(UrwidImage)
+        for c in self.classes[1:]:
+            for name in ("_ti_next_z_index", "_ti_free_z_indexes", "_ti_disguise_state"):
+                if name in vars(c):
+                    delattr(c, name)
         if not hasattr(self.screen, "_ti_image_cviews"):
             raise MachineryError("seam UrwidImageScreen._ti_image_cviews is missing")
         self.widgets: dict[int, object] = {}  # wid -> widget (the only strong reference we hold)
